@@ -15,7 +15,13 @@ def run_case(params, prefix):
     base = "C16|" + _recov.base_key(params)
     fails = []
     if ex.hang:
-        fails.append((base + "|hang", f"executor never returns; pending {ex.pending[:6]}; executions {res['run'].exec_log if 'run' in res else None}"))
+        run_ = res.get("run")
+        key = base + "|hang"
+        if run_ is not None and _recov.sibling_failures(run_):
+            # genuine defect recorded in known_findings.json (DESIGN 5, F13): keyed by cause and program, not by plan
+            key = f"C16|hang|cause=two-steps-of-one-job-fail-with-overlapping-recoveries|prog={params['spec']['prog']}"
+        fails.append((key, f"executor never returns; failures {run_.fail_sites if run_ else None}; pending {ex.pending[:6]}; "
+                           f"executions {run_.exec_log if run_ else None}"))
     elif ex.error:
         fails.append((base + "|error", f"{ex.error[0]}: {ex.error[1]!r}"))
     else:
